@@ -1136,7 +1136,9 @@ class SyncProjectsCloneOrSync(Contract):
         return [{"dry_run": d, "deep": dp, "recursive": r, "exists": e, "selection": s, "check_schema": cs}
                 for d in (False, True) for dp in (False, True) for r in (False, True) for e in (False, True) for s in (None, "ids", "empty") for cs in (True, False)
                 if (dp or not r) and (cs or not d)] + \
-               [{"dry_run": False, "deep": False, "recursive": False, "exists": True, "selection": None, "check_schema": True, "doc_sync": ds} for ds in ("default", "NO_SYNC", "COPY")]
+               [{"dry_run": False, "deep": False, "recursive": False, "exists": True, "selection": None, "check_schema": True, "doc_sync": ds} for ds in ("default", "NO_SYNC", "COPY")] + \
+               [{"dry_run": d, "deep": dp, "recursive": False, "exists": e, "selection": s, "check_schema": True, "parallel": par}
+                for d in (False, True) for dp in (False, True) for e in (False, True) for s in (None, "ids", "empty") for par in (2, True)]
 
     def loops(self, case):
         inv = lambda interp, fr, i, seq: z3.BoolVal(True)
@@ -1233,6 +1235,34 @@ class SyncProjectsCloneOrSync(Contract):
         sel = None if case["selection"] is None else ([the_job] if case["selection"] == "ids" else [])
         kw = dict(source=source, destination=destination, strategy=strategy, exclude="pat", doc_sync=doc_sync, selection=sel, check_schema=case["check_schema"],
                   recursive=case["recursive"], deep=case["deep"], dry_run=case["dry_run"])
+        if "parallel" in case:
+            kw["parallel"] = case["parallel"]
+            from multiprocessing.pool import ThreadPool
+
+            class SPool(Sym):
+                """ThreadPool(n) as a context manager; imap(f, seq) calls f once on every element and hands the results over in order.
+                Interleaving of the calls is not modelled: the per-job operations work on different job directories (assumed independent)."""
+
+                def sym_with(s, interp_, body):
+                    return body(s)
+
+                def sym_getattr(s, ex_, name):
+                    if name == "imap":
+                        def imap(interp_, f, seq):
+                            if isinstance(seq, Sym):
+                                seq = seq.sym_iter(interp_.ex)
+                            if not isinstance(seq, list):
+                                raise Unsupported("imap over something that is not a list of jobs")
+                            g["calls"].append(("imap", f, list(seq)))
+                            return [interp_.call(f, [x], {}) for x in seq]
+                        return NativeStub(imap, "pool.imap", wants_ex=True)
+                    raise Unsupported(f"pool.{name}")
+
+            def mkpool(interp_, *a, **k):
+                g["calls"].append(("ThreadPool", a, k))
+                return SPool()
+            ctx.externals[ThreadPool] = mkpool
+            ex.assumptions_used.add("ThreadPool.imap(f, jobs): f is called once on every job, results in order; concurrent calls work on different job directories and are assumed independent (thread interleavings not modelled)")
         return [], kw, {}
 
     def make_ctx(self, case):
@@ -1272,6 +1302,13 @@ class SyncProjectsCloneOrSync(Contract):
             return
         clones = [c for c in calls if c[0] == "clone"]
         sel_jobs = [g["job"], g["other"]] if case["selection"] is None else ([g["job"]] if case["selection"] == "ids" else [])
+        if "parallel" in case:
+            pools = [c for c in calls if c[0] == "ThreadPool"]
+            maps = [c for c in calls if c[0] == "imap"]
+            okp = len(pools) == 1 and (pools[0][1] == ((None,) if case["parallel"] is True else (case["parallel"],))) and not pools[0][2] \
+                and len(maps) == 1 and maps[0][2] == sel_jobs and all(a is b for a, b in zip(maps[0][2], sel_jobs))
+            ex.oblige(self.oname("call[ThreadPool]:parallel=n_uses_n_threads_(True:_the_default_number)_and_maps_the_clone-or-sync_step_over_exactly_the_selected_jobs"), z3.BoolVal(bool(okp)),
+                      note=repr([(c[0], c[1] if c[0] == "ThreadPool" else len(c[2])) for c in pools + maps]))
         ex.oblige(self.oname("ensures:exactly_the_selected_jobs_are_cloned_or_synchronised"), z3.BoolVal([c[1] for c in clones] == sel_jobs))
         pxs = {id(getattr(c[2], "selfobj", None)) for c in clones}
         px = getattr(clones[0][2], "selfobj", None) if clones else None
